@@ -10,4 +10,4 @@ Extraction "model.ml"
   trie_of no_merge minimize dfa_from expr_from final_expr new_alternation regexp_str build
   e_str lines strip_sgr mem_ranges is_digit is_word is_space g_eqb expr_eqb
   escape_cp hex_of_N dec_of_N cluster_of convert_classes convert_repetitions
-  partition_of dfs_order union2 concatenate parse py_rewrite.
+  partition_of dfs_order union2 concatenate parse py_rewrite sc_admissible.
